@@ -701,8 +701,8 @@ var specRand = pbt.Register(&pbt.Spec[Case]{
 
 // ---- exhaustive unit: every pair of subsets of a small universe x every layout recipe x every operation
 
-// recipes build a set with exactly the members `mem` (codes < n) in a chosen internal layout, using the
-// spare codes n, n+1 (deleted again) and 7 (temporary).
+// recipes build a set with exactly the members `mem` (codes < n) in a chosen internal layout; the other codes
+// < n are inserted and deleted again at the right moments, code 7 is a temporary.
 var recipes = []string{"maps", "adds", "promoted", "nil", "expunged", "unexpunged", "promoted-nil"}
 
 func recipe(name string, mem []int, n int) Operand {
@@ -717,7 +717,21 @@ func recipe(name string, mem []int, n int) Operand {
 			h = append(h, HOp{"rem", v})
 		}
 	}
-	x := []int{n, n + 1}
+	// the entries that end up deleted are those of the universe's non-members, so that the other operand
+	// can hold exactly the values whose entries are nil/expunged here (spare code n when there is no non-member)
+	var x []int
+	for v := 0; v < n; v++ {
+		isMem := false
+		for _, m := range mem {
+			isMem = isMem || m == v
+		}
+		if !isMem {
+			x = append(x, v)
+		}
+	}
+	if len(x) == 0 {
+		x = []int{n}
+	}
 	const tmp = 7
 	o := Operand{Impl: "sync2", Ctor: "zero"}
 	expunged := func() {
